@@ -1,6 +1,7 @@
 package props
 
 import (
+	"crypto/sha256"
 	"fmt"
 	"io"
 	"sort"
@@ -11,12 +12,13 @@ import (
 	"simworld/h"
 	"simworld/k"
 	"simworld/plugins"
+	"simworld/shim/simexec"
 	"simworld/shim/simos"
 )
 
 // C17: plugin launch environment and stdin are determined by the client config.
 
-var c17Ambient = []string{"none", "cert", "mux", "sockdir", "sockgroup", "versions", "ports", "cookie", "all"}
+var c17Ambient = []string{"none", "cert", "mux", "sockdir", "sockgroup", "versions", "ports", "cookie", "all", "family"}
 
 func init() {
 	Register(&Prop{ID: "C17",
@@ -38,6 +40,12 @@ func init() {
 										continue
 									}
 									cells = append(cells, P("auto", auto, "mux", mux, "skip", skip, "launch", launch, "ambient", amb, "proto", proto))
+									if launch == "cmd" && (amb == "family" || amb == "none" || amb == "all") {
+										// the command's own environment is a copy of the host's (exec.Command + append(os.Environ(), ...)),
+										// or the command value was used before by a client whose start failed
+										cells = append(cells, P("auto", auto, "mux", mux, "skip", skip, "launch", launch, "ambient", amb, "proto", proto, "cmdenv", "environ"))
+										cells = append(cells, P("auto", auto, "mux", mux, "skip", skip, "launch", launch, "ambient", amb, "proto", proto, "second", "1"))
+									}
 								}
 							}
 						}
@@ -51,7 +59,7 @@ func init() {
 			}
 			var out []*k.Spec
 			for _, c := range cells {
-				out = append(out, sp("C17", fmt.Sprintf("cell/%s/a%s/m%s/s%s/%s/%s", c["proto"], c["auto"], c["mux"], c["skip"], c["launch"], c["ambient"]), seed, c))
+				out = append(out, sp("C17", fmt.Sprintf("cell/%s/a%s/m%s/s%s/%s/%s%s%s", c["proto"], c["auto"], c["mux"], c["skip"], c["launch"], c["ambient"], c["cmdenv"], c["second"]), seed, c))
 			}
 			n := 300
 			if tier == "thorough" {
@@ -85,6 +93,13 @@ func runC17(r *h.Run) {
 	launch, amb, proto := sp.P("launch", "cmd"), sp.P("ambient", "none"), sp.P("proto", "grpc")
 	group, ports, versions := sp.P("group", ""), sp.P("ports", ""), sp.P("versions", "1")
 	ctx := fmt.Sprintf("automtls=%v mux=%v skiphostenv=%v launch=%s ambient=%s", auto, mux, skip, launch, amb)
+	cmdenv, second := sp.P("cmdenv", ""), sp.P("second", "") == "1"
+	if cmdenv != "" {
+		ctx += " cmd.Env=" + cmdenv
+	}
+	if second {
+		ctx += " cmd-used-before-by-a-failed-client"
+	}
 
 	// the host's own environment: it is itself a plugin of something else
 	certPEM, _ := h.SelfSignedPEM()
@@ -116,6 +131,10 @@ func runC17(r *h.Run) {
 	}
 	if amb == "cookie" || amb == "all" {
 		add(plugins.Handshake.MagicCookieKey, "parents-cookie")
+	}
+	if amb == "family" {
+		// the host is a plugin of the same family: same cookie, its parent's negotiation variables
+		add(plugins.Handshake.MagicCookieKey, plugins.Handshake.MagicCookieValue, "PLUGIN_MIN_PORT", "5", "PLUGIN_MAX_PORT", "6", "PLUGIN_PROTOCOL_VERSIONS", "9,8", "PLUGIN_MULTIPLEX_GRPC", "true")
 	}
 	add("UNRELATED_HOST_VAR", "from-host")
 	for _, kk := range k.SortedKeys(ambient) {
@@ -153,6 +172,7 @@ func runC17(r *h.Run) {
 		}
 	}
 	var minPort, maxPort uint
+	var sharedCmd *simexec.Cmd
 	c.TweakClient = func(cc *plugin.ClientConfig) {
 		cc.SkipHostEnv = skip
 		cc.HandshakeConfig.ProtocolVersion = 0
@@ -171,8 +191,37 @@ func runC17(r *h.Run) {
 			fmt.Sscanf(ports, "%d-%d", &minPort, &maxPort)
 			cc.MinPort, cc.MaxPort = minPort, maxPort
 		}
+		if cmdenv == "environ" && cc.Cmd != nil {
+			cc.Cmd.Env = append(r.Host.Environ(), "CMD_EXTRA=1")
+		}
+		if sharedCmd != nil && cc.Cmd != nil {
+			sharedCmd.SimName = cc.Cmd.SimName
+			cc.Cmd = sharedCmd
+		}
 	}
 	r.InstallPlugin(&c)
+	if second && launch == "cmd" {
+		// client A: other settings, a checksum that does not match - its Start
+		// fails before anything is launched, but it has prepared the command
+		ca := c
+		ca.Mux = false
+		ca.TweakClient = func(cc *plugin.ClientConfig) {
+			cc.MinPort, cc.MaxPort = 31000, 31001
+			cc.HandshakeConfig.ProtocolVersion = 7
+			cc.SecureConfig = &plugin.SecureConfig{Checksum: []byte("not the checksum of anything....."), Hash: sha256.New()}
+			sharedCmd = cc.Cmd
+		}
+		a := r.NewClient(ca)
+		ao := r.DoNoHang("A.Start", 90*time.Second, ctx, func() (any, error) { return a.Start() })
+		if ao.Err == nil {
+			r.Violate("setup", "client A started despite its checksum "+ctx, "")
+		}
+		r.DoNoHang("A.Kill", 90*time.Second, ctx, func() (any, error) { a.Kill(); return nil, nil })
+		if seenEnv != nil {
+			r.Violate("setup", "client A launched the plugin "+ctx, "")
+			return
+		}
+	}
 	cl := r.NewClient(c)
 	o := r.DoNoHang("Start", 90*time.Second, ctx, func() (any, error) { return cl.Start() })
 	if o.Hung {
@@ -199,6 +248,14 @@ func runC17(r *h.Run) {
 		got, has := eff[key]
 		if present && (!has || got != val) {
 			r.Violate("wrong-env", fmt.Sprintf("%s var=%s", ctx, key), fmt.Sprintf("plugin sees %s=%q (present=%v), the client configuration implies %q", key, firstN(got, 60), has, firstN(val, 60)))
+		}
+		if _, given := ambient[key]; !present && given && cmdenv == "environ" {
+			// the caller put this variable into Cmd.Env itself (a copy of its own
+			// environment): that is part of the configuration, not a leak
+			return
+		}
+		if !present && key == "UNRELATED_HOST_VAR" && second {
+			return // client A, which did not skip the host environment, prepared the shared command
 		}
 		if !present && has && got != "" {
 			r.Violate("wrong-env", fmt.Sprintf("%s var=%s leaked", ctx, key), fmt.Sprintf("plugin sees %s=%q although the client configuration does not set it", key, firstN(got, 60)))
@@ -240,7 +297,12 @@ func runC17(r *h.Run) {
 		r.Violate("wrong-stdin", ctx, fmt.Sprintf("plugin read %q from its stdin", seenStdin))
 	}
 	// end to end: the plugin acted on this client's configuration
-	if o.Err != nil {
+	if cmdenv == "environ" && !(amb == "none" || (amb == "family" && mux)) {
+		// the command's own environment asks the plugin for a mode (multiplexing,
+		// client certificate, socket group) this client neither requests nor
+		// overrides: whether the two then interoperate is the caller's business
+		w.Probe("e2e.skipped-caller-env")
+	} else if o.Err != nil {
 		r.Violate("start-failed", ctx, fmt.Sprintf("Start failed: %v", o.Err))
 	} else {
 		do := r.DoNoHang("Dispense+call", 60*time.Second, ctx, func() (any, error) {
